@@ -273,6 +273,10 @@ pub enum DecForm {
     TrySymbolsSkip(usize),
     /// `decode_iid_symbols(..)`, taking every element with `nth(n)`
     IidNth(usize),
+    /// `decode_iid_symbols(..).count()`: everything is decoded and discarded
+    IidCount,
+    /// `decode_symbols(..).last()`
+    SymbolsLast,
 }
 
 /// placeholder for a symbol that an iterator adaptor decoded and threw away
@@ -470,6 +474,18 @@ where
             let ys: Vec<usize> = c.try_decode_symbols(models.iter().map(|m| Ok::<_, ()>(*m))).skip(j).map(|r| r.expect("ANS decode failed")).collect();
             let mut out = vec![SKIPPED; j.min(models.len())];
             out.extend(ys);
+            out
+        }
+        DecForm::IidCount => {
+            let n = c.decode_iid_symbols(models.len(), models[0]).count();
+            vec![SKIPPED; n]
+        }
+        DecForm::SymbolsLast => {
+            let last = c.decode_symbols(models.iter().copied()).last();
+            let mut out = vec![SKIPPED; models.len().saturating_sub(1)];
+            if let Some(r) = last {
+                out.push(r.expect("ANS decode failed"));
+            }
             out
         }
         DecForm::IidNth(n) => {
